@@ -15,3 +15,6 @@ _reg("C07")
 _reg("C08")
 _reg("C09")
 _reg("C10")
+_reg("C13")
+_reg("C11")
+_reg("C12")
